@@ -3,6 +3,7 @@ package c15
 
 import (
 	"fmt"
+	"github.com/ctessum/geom"
 	"testing"
 
 	"pgregory.net/rapid"
@@ -432,7 +433,81 @@ func run(c Case) (v vkit.Verdict) {
 	if !g.Similar(g, c.Tol) {
 		return v.Fail("g.Similar(g) = false")
 	}
+	// aliased operands: a shallow copy of g in which the k-th point list is re-sliced to a strict prefix that shares g's
+	// memory (what `line[:n-1]` gives a caller): the vertex counts differ, so the answer is false in both directions
+	for k := 0; k < 4; k++ {
+		n := k
+		a, ok := aliasPrefix(g, &n)
+		if !ok {
+			break
+		}
+		v.Class("aliased_prefix_operand")
+		var ga, ag bool
+		if p := vkit.Catch(func() { ga = g.Similar(a, c.Tol); ag = a.Similar(g, c.Tol) }); p != "" {
+			return v.Fail("Similar panicked on an operand that is a re-sliced prefix of the other: %s", p)
+		}
+		if ga || ag {
+			return v.Fail("g.Similar(a)=%v, a.Similar(g)=%v where a is g with point list %d re-sliced to its first n-1 points (sharing memory): vertex counts differ, expected false", ga, ag, k)
+		}
+	}
 	return v
+}
+
+// aliasPrefix returns a shallow copy of g whose (*k)-th point list with >= 2 points (in storage order) is re-sliced to
+// drop its last point; the point data is shared with g. ok=false when there is no such list.
+func aliasPrefix(g geom.Geom, k *int) (geom.Geom, bool) {
+	cut := func(p []geom.Point) ([]geom.Point, bool) {
+		if len(p) < 2 {
+			return p, false
+		}
+		if *k > 0 {
+			*k--
+			return p, false
+		}
+		*k = -1
+		return p[: len(p)-1 : len(p)], true
+	}
+	switch t := g.(type) {
+	case geom.MultiPoint:
+		q, ok := cut(t)
+		return geom.MultiPoint(q), ok
+	case geom.LineString:
+		q, ok := cut(t)
+		return geom.LineString(q), ok
+	case geom.MultiLineString:
+		out := append(geom.MultiLineString(nil), t...)
+		for i := range out {
+			if q, ok := cut(out[i]); ok {
+				out[i] = geom.LineString(q)
+				return out, true
+			}
+		}
+	case geom.Polygon:
+		out := append(geom.Polygon(nil), t...)
+		for i := range out {
+			if q, ok := cut(out[i]); ok {
+				out[i] = q
+				return out, true
+			}
+		}
+	case geom.MultiPolygon:
+		out := append(geom.MultiPolygon(nil), t...)
+		for i := range out {
+			if q, ok := aliasPrefix(out[i], k); ok {
+				out[i] = q.(geom.Polygon)
+				return out, true
+			}
+		}
+	case geom.GeometryCollection:
+		out := append(geom.GeometryCollection(nil), t...)
+		for i := range out {
+			if q, ok := aliasPrefix(out[i], k); ok {
+				out[i] = q
+				return out, true
+			}
+		}
+	}
+	return g, false
 }
 
 func TestProp(t *testing.T) {
@@ -443,6 +518,7 @@ func TestProp(t *testing.T) {
 			"(closing vertex kept equal to the first), members of multi-line-strings/multi-polygons/polygon rings/collections permuted and ring start vertices rotated -> must be " +
 			"similar; or additionally one negative edit (other type, member inserted/deleted at any position, vertex inserted/deleted, line reversed, one vertex displaced by " +
 			"2-50*tol) at a random nesting level -> must not be similar. Both directions are evaluated and must agree with each other and with the constructed truth. " +
+			"Aliasing: g against a shallow copy of itself in which one point list is re-sliced to a strict prefix sharing memory (first four lists) -> false both ways. " +
 			"Non-trivial = a non-identity permutation/rotation or a negative edit. Distinct by case hash.",
 		Assumptions: []string{"MultiPoint member order and ring direction are not claimed either way", "a closed ring's first and closing vertex are treated as one vertex by perturbation and displacement"},
 		Gen:         gen,
